@@ -7,6 +7,7 @@ CONSTANTS
   QKinds = {"plain", "amp", "plus", "hash", "pct"}
   StartKinds = {"none", "start"}
   MaxHops = 3
+  Rounds = 2
 INVARIANT WrappedIffHttps
 INVARIANT ChainDelivered
 INVARIANT ExactlyOneFinalResponse
